@@ -373,3 +373,16 @@ Definition unl_live (p : upc) : Z := match p with ULive => 1 | _ => 0 end.
 (* all sessions currently admitted, through whichever instance or through none *)
 Definition madmitted (M : mstate) : Z :=
   sumz admitted (m_gens M) + sumz unl_live (m_unl M).
+
+(* ---- what the lifecycle must never do ----
+   Every way an admitted session ends (session.go closeLocked for Session.Close /
+   peer.Close / takeover by a session with the same id; readDisconnected for a lost
+   connection) runs pluginContainer.postDisconnect, WHATEVER socket.Close returns: EClose is
+   the only exit from LLive.  [end_without_hook] is the forbidden exit (e.g. closeLocked
+   returning early on a socket close error): the session is over, no hook ran. *)
+Definition end_without_hook (s : lstate) (i : nat) : option lstate :=
+  let x := getn sess0 i (l_ss s) in
+  match s_pc x with
+  | LLive => Some (lset s (l_c s) i (with_pc x LDone))
+  | _ => None
+  end.
